@@ -391,7 +391,13 @@ func propC03(rec *ev.Recorder) func(t *rapid.T) {
 			rec.Flush()
 			t.Fatalf("%s", fl.Msg)
 		}
+		rec.ClassIf(u.EmptyRefs, "feature:empty-reference-spelling")
 		if fl != nil {
+			if u.EmptyRefs && knownOpen("empty-ref-ignored") && strings.Contains(fl.Msg, "empty-reference") {
+				rec.Known("empty-ref-ignored", "\"$ref\": \"\" (RFC 3986: the base URI itself, i.e. the root of the enclosing resource) is treated as no reference at all")
+				rec.Case()
+				return
+			}
 			report(t, rec, c, fl)
 		}
 		rec.Case()
